@@ -109,23 +109,29 @@ def _check_int(name, v):
         raise TypeError("'%s' object cannot be interpreted as an integer" % type(v).__name__)
 
 
+def _rng(lo, v, hi):
+    from .core import And
+
+    return And(lo <= v, v <= hi)
+
+
 def _validate_date(y, m, d):
-    if not (1 <= y) or not (y <= 9999):
+    if not _rng(1, y, 9999):
         raise ValueError("year %s is out of range" % (y if isinstance(y, int) else "<sym>"))
-    if not (1 <= m) or not (m <= 12):
+    if not _rng(1, m, 12):
         raise ValueError("month must be in 1..12")
-    if not (1 <= d) or not (d <= dim(y, m)):
+    if not _rng(1, d, dim(y, m)):
         raise ValueError("day is out of range for month")
 
 
 def _validate_time(H, M, S, us):
-    if not (0 <= H) or not (H <= 23):
+    if not _rng(0, H, 23):
         raise ValueError("hour must be in 0..23")
-    if not (0 <= M) or not (M <= 59):
+    if not _rng(0, M, 59):
         raise ValueError("minute must be in 0..59")
-    if not (0 <= S) or not (S <= 59):
+    if not _rng(0, S, 59):
         raise ValueError("second must be in 0..59")
-    if not (0 <= us) or not (us <= 999999):
+    if not _rng(0, us, 999999):
         raise ValueError("microsecond must be in 0..999999")
 
 
@@ -680,6 +686,62 @@ def dt_diff(a, b):
     return mk_timedelta(dt_wall_us(a) - dt_wall_us(b))
 
 
+def _small_day_shift(y, m, d, k):
+    """(y, m, d) + k days for |k| <= 28 in closed form (no fresh variables): stays in the month, or
+    moves into the adjacent one.  Raises OverflowError outside 0001-01-01..9999-12-31."""
+    from .core import And, Or
+
+    L = dim(y, m)
+    d2 = d + k
+    over = Or(And(d2 > L, m == 12, y == 9999), And(d2 < 1, m == 1, y == 1))
+    if over:
+        raise OverflowError("date value out of range")
+    if all(isinstance(v, int) for v in (y, m, d, k)):
+        nd = _dt.date(y, m, d) + _dt.timedelta(days=k)
+        return nd.year, nd.month, nd.day
+    zy, zm, zd2, zL = _z(y), _z(m), _z(d2), _z(L)
+    nxt_y = z3.If(zm == 12, zy + 1, zy)
+    nxt_m = z3.If(zm == 12, 1, zm + 1)
+    prv_y = z3.If(zm == 1, zy - 1, zy)
+    prv_m = z3.If(zm == 1, 12, zm - 1)
+    after = zd2 > zL
+    before = zd2 < 1
+    ny = z3.If(after, nxt_y, z3.If(before, prv_y, zy))
+    nm = z3.If(after, nxt_m, z3.If(before, prv_m, zm))
+    nd = z3.If(after, zd2 - zL, z3.If(before, zd2 + z_dim(prv_y, prv_m), zd2))
+    return mk_int(z3.simplify(ny)), mk_int(z3.simplify(nm)), mk_int(z3.simplify(nd))
+
+
+def _bounded(k, lo, hi):
+    """is lo <= k <= hi known on this path? (one solver query for a symbolic k)"""
+    if isinstance(k, int):
+        return lo <= k <= hi
+    from .core import And
+
+    return cur().prove(And(lo <= k, k <= hi))[0] == "unsat"
+
+
+def _shift_days_fields(y, m, d, k):
+    if isinstance(k, int) and k == 0:
+        return y, m, d
+    if _bounded(k, -28, 28):
+        return _small_day_shift(y, m, d, k)
+    o = ordinal(y, m, d) + k
+    if not _rng(1, o, MAXORD):
+        raise OverflowError("date value out of range")
+    if isinstance(o, int):
+        nd = _dt.date.fromordinal(o)
+        return nd.year, nd.month, nd.day
+    return _fresh_date_for_ordinal(o)
+
+
+def shift_days(dt, k):
+    """dt + k days (k int or symbolic integer)"""
+    y, m, d, H, M, S, us = dt_fields(dt)
+    ny, nm, nd_ = _shift_days_fields(y, m, d, k)
+    return _raw_datetime(ny, nm, nd_, H, M, S, us, dt_tz(dt))
+
+
 def shift_datetime(dt, delta_us):
     """dt + delta (microseconds), tzinfo kept, wall-clock arithmetic exactly like CPython"""
     y, m, d, H, M, S, us = dt_fields(dt)
@@ -689,25 +751,12 @@ def shift_datetime(dt, delta_us):
         k = delta_us // US_DAY
         if k == 0 and isinstance(dt, SDateTime):
             return dt
-        o = ordinal(y, m, d) + k
-        if not (1 <= o) or not (o <= MAXORD):
-            raise OverflowError("date value out of range")
-        if isinstance(o, int):
-            nd = _dt.date.fromordinal(o)
-            ny, nm, nd_ = nd.year, nd.month, nd.day
-        else:
-            ny, nm, nd_ = _fresh_date_for_ordinal(o)
+        ny, nm, nd_ = _shift_days_fields(y, m, d, k)
         return _raw_datetime(ny, nm, nd_, H, M, S, us, tz)
-    total = dt_wall_us(dt) + delta_us
-    o = total // US_DAY
-    rem = total % US_DAY
-    if not (1 <= o) or not (o <= MAXORD):
-        raise OverflowError("date value out of range")
-    if isinstance(o, int):
-        nd = _dt.date.fromordinal(o)
-        ny, nm, nd_ = nd.year, nd.month, nd.day
-    else:
-        ny, nm, nd_ = _fresh_date_for_ordinal(o)
+    tod = ((H * 60 + M) * 60 + S) * 1000000 + us + delta_us
+    k = tod // US_DAY
+    rem = tod % US_DAY
+    ny, nm, nd_ = _shift_days_fields(y, m, d, k)
     nus = rem % 1000000
     secs = rem // 1000000
     nS = secs % 60
